@@ -14,7 +14,13 @@ in `dead`, and lets the indexes map a key to an id.  `deref` follows an id.
 * `normalizeHostname` / `netutil.ValidateHostname` are an `Oracle` parameter;
 * ICMP probing is off (`ICMPTimeout = 0`), so `addrAvailable` is `true`;
 * `writeDB` sorts with `slices.SortFunc`, which is a stable insertion sort for
-  at most 12 elements; the model sorts stably.
+  at most 12 elements; the model sorts stably;
+* the code modelled is the tree after the repairs 11eb866 (F5), 6deb704 (F6),
+  9985548 (F7), 429fb4b (hostname index in `rmDynamicLease`) and 5958d07
+  (`AddStaticLease` stores on error).  Still in the code, hence in the model:
+  `commitName` (R3), `resetLoop` renaming unnamed leases (R4), `copyInto` on
+  hardware addresses of different lengths (R5), `releaseLoop` ranging over the
+  slice header it is shrinking.
 -/
 import AGH.Model.Bytes
 namespace AGH.C10
